@@ -66,7 +66,7 @@ def openNodeE (A : CmdSem) (envs renvs : Nat → Env) (n : Node) : Node :=
   | none =>
     match n.snap with
     | some (i, _) =>
-      if n.fp && n.dbFileOk then replayLogE A envs { openPrep n with live := n.dbFile, applied := i }
+      if n.fp && n.dbFileOk && n.fpIdx == i then replayLogE A envs { openPrep n with live := n.dbFile, applied := i }
       else replayLogE A envs (restoreNewest (openPrep n))
     | none => replayLogE A envs (restoreNewest (openPrep n))
 
